@@ -865,6 +865,96 @@ func orderSignature(done []linRec) string {
 	return sb.String()
 }
 
+// c14SavesQueuedBehindALock: several fan controllers of one daemon store their results at the moment another user
+// (a `fan2go fan ... curve` call) holds the database: the saves queue up one after the other, all inside one process
+// and - as on a single-core machine - on one scheduler thread. Afterwards every key holds exactly what was saved under
+// it.
+func c14SavesQueuedBehindALock(ctx *Ctx) {
+	old := runtime.GOMAXPROCS(1)
+	defer runtime.GOMAXPROCS(old)
+	for round := 0; round < 6; round++ {
+		dir := ctx.Path(uniqueId("c14queue"))
+		_ = os.MkdirAll(dir, 0755)
+		dbPath := filepath.Join(dir, "fan2go.db")
+		p := persistence.NewPersistence(dbPath)
+		_ = p.Init()
+		_ = p.SaveFanPwmMap("warmup", map[int]int{0: 0})
+		holder, err := bolt.Open(dbPath, 0600, &bolt.Options{Timeout: 5 * time.Second})
+		if err != nil {
+			ctx.Inconclusive("queued saves: " + err.Error())
+			_ = os.RemoveAll(dir)
+			return
+		}
+		type job struct {
+			id   string
+			data map[int]float64
+			m    map[int]int
+		}
+		var jobs []job
+		for k := 0; k < 5; k++ {
+			id := fmt.Sprintf("fan%d", k)
+			if (k+round)%2 == 0 {
+				d := map[int]float64{}
+				for i := 0; i < 3+((k*7+round*5)%40); i++ {
+					d[i*3] = float64(1000*k + i)
+				}
+				jobs = append(jobs, job{id: id, data: d})
+			} else {
+				m := map[int]int{}
+				for i := 0; i < 2+((k*11+round*3)%60); i++ {
+					m[i] = (i*k + round) % 256
+				}
+				jobs = append(jobs, job{id: id, m: m})
+			}
+		}
+		var wg sync.WaitGroup
+		errs := make([]error, len(jobs))
+		for i, j := range jobs {
+			wg.Add(1)
+			go func(i int, j job) {
+				defer wg.Done()
+				if j.data != nil {
+					errs[i] = p.SaveFanPwmData(mkDataFan(j.id, j.data))
+				} else {
+					errs[i] = p.SaveFanPwmMap(j.id, j.m)
+				}
+			}(i, j)
+			time.Sleep(15 * time.Millisecond) // the save has reached the lock (or finished its encoding) before the next one begins
+		}
+		time.Sleep(60 * time.Millisecond)
+		_ = holder.Close()
+		wg.Wait()
+		for i, j := range jobs {
+			ctx.Eval(1)
+			if errs[i] != nil {
+				ctx.Count("queued_saves_that_reported_an_error", 1)
+				continue
+			}
+			var got, want string
+			if j.data != nil {
+				d, lerr := p.LoadFanPwmData(mkDataFan(j.id, nil))
+				got, want = canonF(d), canonF(j.data)
+				if lerr != nil {
+					got = "error: " + lerr.Error()
+				}
+			} else {
+				d, lerr := p.LoadFanPwmMap(j.id)
+				got, want = canonI(d), canonI(j.m)
+				if lerr != nil {
+					got = "error: " + lerr.Error()
+				}
+			}
+			if got != want {
+				ctx.Violation("round-trip-mismatch:saves-queued-behind-a-lock", fmt.Sprintf("five saves for different fans issued 15 ms apart while another user held the database (one scheduler thread): %s holds %s, saved %s", j.id, got, want), nil)
+				_ = os.RemoveAll(dir)
+				return
+			}
+		}
+		_ = os.RemoveAll(dir)
+	}
+	ctx.Nontrivial("saves-queued-behind-a-lock")
+}
+
 func init() {
 	register("C14", func(ctx *Ctx) {
 		switch ctx.Mode {
@@ -879,6 +969,9 @@ func init() {
 		case "lin":
 			c14Lin(ctx)
 		default:
+			if ctx.Batch == 0 {
+				c14SavesQueuedBehindALock(ctx)
+			}
 			n := ctx.N(1200, 30000)
 			for i := 0; i < n && !ctx.Abort; i++ {
 				c14Sequential(ctx)
